@@ -99,6 +99,16 @@ impl WalkError {
         self.path.as_deref()
     }
 
+    /// The error for a directory that is one of its own ancestors in the walk.
+    #[cfg(unix)]
+    pub fn file_system_loop(path: &Path, depth: usize) -> Self {
+        Self {
+            path: Some(path.to_owned()),
+            depth: Some(depth),
+            raw: Some(uucore::libc::ELOOP),
+        }
+    }
+
     /// Get the traversal depth when this error occurred, if known.
     pub fn depth(&self) -> Option<usize> {
         self.depth
